@@ -705,6 +705,14 @@ def shallow_match_table(ctx, sym):
         for b in LITERALS:
             yield ('literal', 'pattern literal %r against student literal %r' % (a, b), run(const(a), const(b)),
                    type(a) is type(b) and a == b)
+    # equal values that are different objects (what two parses of the same text give): content, not identity, decides
+    for a in (10 ** 20, 2.5, 1e300, 'two words, not interned', b'some bytes', 3 + 4j, -(10 ** 12)):
+        twin = ast.literal_eval(repr(a))
+        yield ('literal', 'pattern literal %r against an equal student literal that is another object' % (a,),
+               run(const(a), const(twin)), True)
+    twin_name = ''.join(['tot', 'al_cost'])
+    yield ('content', 'Name total_cost against Name total_cost (another string object)',
+           run(name('total_cost'), name(twin_name)), True)
     yield ('kind', 'Constant(1) against Name x', run(const(1), name('x')), False)
     yield ('kind', 'Name x against Constant(1)', run(name('x'), const(1)), False)
     yield ('kind', 'Compare against IfExp (same number of fields)',
